@@ -40,6 +40,9 @@ package keystorage
 //@   modifies hmacVerified, hashCalls, lastHash
 //@   ghost hmacVerified = (result == nil)
 //@   ensures [verified-flag] hmacVerified == (result == nil)
+//@   ensures [tag-compared-in-full] result == nil ==> len(lastHash) == len(ks.underlying.KeysHmacHash) &&
+//@     (forall i int :: 0 <= i && i < len(lastHash) ==> lastHash[i] == ks.underlying.KeysHmacHash[i])
+//@   ensures [digest-recomputed] hashCalls == old(hashCalls) + 1
 //@
 //@ func (*KeyStorage).getKey
 //@   props C20
